@@ -6,7 +6,7 @@ from hypothesis import strategies as st
 from ..runner import Shard, Violation
 from ..tools import ITER_TOOLS, AGG_TOOLS, TOOLS
 from ..gen import base_case, features, EXC_NAMES
-from ..core import run_async, run_sync, trace_view, consumer_view, first_diff
+from ..core import expect_return, run_async, run_sync, trace_view, consumer_view, first_diff
 
 PROPERTY = "C06"
 LEVEL = "fault_enumeration"
@@ -84,8 +84,7 @@ def check_one(c):
     res = c["fault_at"][0]
     bs = run_sync(c)
     ba, outcome = run_async(c)
-    if outcome[0] != "return":
-        raise Violation(f"C06/{tool}/consumer-crash", repr(outcome), case=c)
+    expect_return(outcome, f"C06/{tool}", c)
     av, sv = consumer_view(ba.ctx.log), consumer_view(bs.ctx.log)
     d = first_diff(av, sv)
     if d is not None:
